@@ -487,9 +487,38 @@ def run(ctx):
                  f"unix owners iterate {sorted(forms)}; expected the holders "
                  f"inodes[inode] or the single unknown holder [(None, -1)]")
     # filter
+    from .c15 import eval_pred
     for f, term in ((pi, t), (pu, tu)):
-        whens = collect(term, lambda x: x and x[0] == "when")
-        okf = any("filter_pid" in pretty(w[1]) and "'!='" in pretty(w[1]) for w in whens)
+        # a row is yielded iff no filter is given or the filter equals the row's
+        # owner: evaluated on the guards of the yield, whatever their spelling
+        fcfg_ = A.cfg(f)
+        fpn = [a.arg for a in f.node.args.args if a.arg in ("filter_pid",)] or \
+            [a.arg for a in f.node.args.args][-1:]
+        fpn = fpn[0]
+        ys = [n for n in fcfg_.nodes if n.kind == "stmt" and isinstance(n.stmt, ast.Expr)
+              and isinstance(n.stmt.value, ast.Yield)]
+        okf = bool(ys)
+        for y in ys:
+            yv = y.stmt.value.value
+            owner = dotted(yv.elts[-1]) if isinstance(yv, ast.Tuple) and yv.elts else None
+            if not owner:
+                okf = False
+                continue
+            for flt, own, want in ((None, 7, True), (None, None, True), (7, 7, True),
+                                   (7, 8, False), (7, None, False), (0, 0, True)):
+                reach = True
+                decided = False
+                for e, pol, _ in fcfg_.guards(y):
+                    names_ = {x.id for x in ast.walk(e) if isinstance(x, ast.Name)}
+                    if fpn not in names_:
+                        continue
+                    v = eval_pred(e, {fpn: flt, owner: own})
+                    if v in (True, False):
+                        decided = True
+                        if v is not pol:
+                            reach = False
+                if not decided or reach is not want:
+                    okf = False
         key = f"filter:{f.name}"
         if okf:
             ctx.ok("C11.R4", key, sample="skip when filter_pid is not None and != pid")
@@ -502,9 +531,12 @@ def run(ctx):
     sc = [c for c in calls_in(rt.node) if dotted(c.func) == "_common.sconn"]
     rparams = [a.arg for a in rt.node.args.args]
     pid_p = rparams[2] if len(rparams) > 2 else "pid"
-    rec = [fl for fl in ast.walk(rt.node) if isinstance(fl, ast.For)
+    # the 7-slot record is unpacked by the loop header or by an assignment in it
+    rec = [fl.target for fl in ast.walk(rt.node) if isinstance(fl, ast.For)
            and isinstance(fl.target, ast.Tuple) and len(fl.target.elts) == 7]
-    names = [dotted(x) for x in rec[0].target.elts] if rec else []
+    rec += [st_.targets[0] for st_ in ast.walk(rt.node) if isinstance(st_, ast.Assign)
+            and isinstance(st_.targets[0], ast.Tuple) and len(st_.targets[0].elts) == 7]
+    names = [dotted(x) for x in rec[0].elts] if rec else []
     okr = pc and sc and rec \
         and all(("truthy", pid_p, True) in facts(rcfg, n) for n in rcfg.owners(pc[0])) \
         and [dotted(a) for a in pc[0].args] == names[:6] \
@@ -529,8 +561,18 @@ def run(ctx):
     def strips_wrapper(e, depth=0):
         """e == link[8:][:-1] or link[8:-1] (possibly through one re-assignment)."""
         def sl(x):
-            return (x.slice.lower.value if isinstance(x.slice.lower, ast.Constant) else
-                    None if x.slice.lower is None else "?",
+            def lo_(e_):
+                if e_ is None:
+                    return None
+                if isinstance(e_, ast.Constant):
+                    return e_.value
+                if isinstance(e_, ast.Call) and dotted(e_.func) == "len" and len(e_.args) == 1 \
+                        and isinstance(e_.args[0], ast.Constant) \
+                        and isinstance(e_.args[0].value, (str, bytes)):
+                    return len(e_.args[0].value)
+                return "?"
+            return (lo_(x.slice.lower) if isinstance(x, ast.Subscript)
+                    and isinstance(x.slice, ast.Slice) else "?",
                     -x.slice.upper.operand.value
                     if isinstance(x.slice.upper, ast.UnaryOp)
                     and isinstance(x.slice.upper.op, ast.USub)
